@@ -49,6 +49,10 @@ type event struct {
 	Cand      bool   `json:"cand"`
 	SvcSet    string `json:"svc_set"`    // SETCID: the id passed, as a symbol
 	StreamCID string `json:"stream_cid"` // READ/SCLOSE: cluster id of the stream being read
+	// Consul stage only: what the fake endpoint really answered (ground truth), and failures of the
+	// leaser-level monitors on this call (ev = "gt": c = monitor, a = signature)
+	Srv    string `json:"srv"`
+	Detail string `json:"detail"`
 }
 
 type sLease struct {
@@ -111,6 +115,8 @@ type run struct {
 	peers map[string]*peer
 
 	inner litefs.Leaser // static-leaser runs: answers come from the real StaticLeaser
+
+	consul *consulBackend // Consul runs: the answers come from the real consul.Leaser against the fake endpoint
 }
 
 func (r *run) sym(id string) string {
@@ -267,8 +273,11 @@ func (r *run) next(ctx context.Context, c string, fill func(e *event)) (ans stri
 	r.mu.Unlock()
 	if driving {
 		e.A, e.Q = drive, true
+		if r.consul != nil {
+			r.consul.perform(ctx, c, &e)
+		}
 		r.append(e)
-		return drive, false
+		return e.A, false
 	}
 
 	if ent == nil {
@@ -282,6 +291,9 @@ func (r *run) next(ctx context.Context, c string, fill func(e *event)) (ans stri
 				e.A = "err"
 			}
 			r.mu.Unlock()
+			if r.consul != nil {
+				r.consul.perform(ctx, c, &e)
+			}
 			r.append(e)
 			return e.A, false
 		}
@@ -307,8 +319,18 @@ func (r *run) next(ctx context.Context, c string, fill func(e *event)) (ans stri
 			r.mu.Unlock()
 		}
 	}
+	if r.consul != nil {
+		// the real consul.Leaser makes the call against the fake endpoint, which has been set up so
+		// that the scripted answer is the true one; what it really returned is logged
+		r.consul.perform(ctx, c, &e)
+		if e.A != ent.A {
+			r.mu.Lock()
+			r.mism = append(r.mism, fmt.Sprintf("step %d (%s): the endpoint was set up for %q, consul.Leaser returned %q", r.pos, c, ent.A, e.A))
+			r.mu.Unlock()
+		}
+	}
 	r.append(e)
-	return ent.A, false
+	return e.A, false
 }
 
 func parkCtx(ctx context.Context) error {
@@ -458,6 +480,9 @@ func (l *sLeaser) AdvertiseURL() string { return "http://node-under-test.invalid
 
 func (l *sLeaser) ClusterID(ctx context.Context) (string, error) {
 	r := l.r
+	if r.consul != nil {
+		return r.consul.ClusterID(ctx)
+	}
 	if r.inner != nil {
 		v, err := r.inner.ClusterID(ctx)
 		r.passthrough("CID", r.symErr(r.sym(v), err), nil)
@@ -475,6 +500,9 @@ func (l *sLeaser) ClusterID(ctx context.Context) (string, error) {
 
 func (l *sLeaser) SetClusterID(ctx context.Context, id string) error {
 	r := l.r
+	if r.consul != nil {
+		return r.consul.SetClusterID(ctx, id)
+	}
 	r.mu.Lock()
 	if r.sym(id) == "G" {
 		r.genID = id
@@ -498,6 +526,9 @@ func (l *sLeaser) SetClusterID(ctx context.Context, id string) error {
 
 func (l *sLeaser) PrimaryInfo(ctx context.Context) (litefs.PrimaryInfo, error) {
 	r := l.r
+	if r.consul != nil {
+		return r.consul.PrimaryInfo(ctx)
+	}
 	if r.inner != nil {
 		v, err := r.inner.PrimaryInfo(ctx)
 		a := "info"
@@ -537,6 +568,9 @@ func (r *run) newLease(id string, innerLease litefs.Lease) *sLease {
 
 func (l *sLeaser) Acquire(ctx context.Context) (litefs.Lease, error) {
 	r := l.r
+	if r.consul != nil {
+		return r.consul.Acquire(ctx)
+	}
 	if r.inner != nil {
 		v, err := r.inner.Acquire(ctx)
 		a := "ok"
@@ -566,6 +600,9 @@ func (l *sLeaser) Acquire(ctx context.Context) (litefs.Lease, error) {
 
 func (l *sLeaser) AcquireExisting(ctx context.Context, leaseID string) (litefs.Lease, error) {
 	r := l.r
+	if r.consul != nil {
+		return r.consul.AcquireExisting(ctx, leaseID)
+	}
 	fill := func(e *event) { e.LeaseID = leaseID }
 	if r.inner != nil {
 		_, err := r.inner.AcquireExisting(ctx, leaseID)
@@ -722,6 +759,9 @@ func (c *sClient) Stream(ctx context.Context, primaryURL string, nodeID uint64, 
 	r.streamN++
 	hid := fmt.Sprintf("handed-lease-%d-%d", r.id, r.streamN)
 	r.mu.Unlock()
+	if r.consul != nil {
+		hid = r.consul.handoffID() // the id of a session the (scripted) primary really holds on the endpoint
+	}
 	a, park := r.next(ctx, "STREAM", func(e *event) { e.LeaseID = hid })
 	if park {
 		return nil, parkCtx(ctx)
@@ -800,8 +840,12 @@ func runScript(sc *script, id int) *outcome {
 	var leaser litefs.Leaser = &sLeaser{r: r}
 	static := strings.HasPrefix(sc.Source, "static")
 	if static {
-		r.inner = litefs.NewStaticLeaser(sc.Source == "static-primary", "static-host", "http://static-primary.invalid:20202")
+		r.inner = litefs.NewStaticLeaser(strings.HasPrefix(sc.Source, "static-primary"), "static-host", "http://static-primary.invalid:20202")
 		r.ttl = 0
+	}
+	if strings.HasPrefix(sc.Source, "consul") {
+		r.consul = newConsulBackend(r)
+		defer r.consul.close()
 	}
 	var startErr error
 	var node *sim.Node
@@ -832,6 +876,16 @@ func runScript(sc *script, id int) *outcome {
 	if r.srv != nil {
 		r.srv.Serve()
 	}
+	if sc.Source == "static-primary/demote" {
+		// a manual demotion of a static primary (requested from outside any leaser call)
+		go func() {
+			for i := 0; i < 2000 && !r.store.IsPrimary(); i++ {
+				time.Sleep(time.Millisecond)
+			}
+			time.Sleep(20 * time.Millisecond)
+			r.store.Demote()
+		}()
+	}
 
 	// wait for quiescence; limits are far above anything the unchanged tree needs
 	half := r.ttl / 2
@@ -859,7 +913,8 @@ loop:
 			r.mu.Lock()
 			last, exh := r.lastEvent, r.exhausted
 			r.mu.Unlock()
-			if time.Since(last) > idle || (!exh.IsZero() && time.Since(exh) > post) || time.Since(r.start) > 90*time.Second {
+			if time.Since(last) > idle || (!exh.IsZero() && time.Since(exh) > post) || time.Since(r.start) > 90*time.Second ||
+				(static && time.Since(r.start) > 1500*time.Millisecond) { // e.g. a non-candidate with a static primary leaser polls for ever
 				break loop
 			}
 		}
@@ -924,6 +979,9 @@ loop:
 		c.cancel()
 	}
 	o.dur = time.Since(r.start)
+	if r.consul != nil {
+		o.clog, o.cevals = r.consul.result()
+	}
 	return o
 }
 
